@@ -1,15 +1,15 @@
 #!/bin/bash
 # usage: tools/seed_save.sh <ID> <caught-by text> — stores a validated seeded change under /verif/seeded/<ID>/
-id=$1; caught=$2; src=/tmp/seed/$id; dst=/verif/seeded/$id
+id=$1; caught=$2; src=/tmp/seed/$id; dst=/verif/seeded/${3:-$id}
 mkdir -p $dst
 cp $src/seed_out/patch.diff $dst/patch.diff
 for f in $(git -C $src status --short | grep '^??' | awk '{print $2}' | grep -v '^seed_out' | grep -E '_test\.(go|py)$|demo'); do cp $src/$f $dst/$(basename $f); echo "$f" >> $dst/.demo_locations; done
-python3 - "$id" "$caught" <<'PY'
+python3 - "$id" "$caught" "$dst" <<'PY'
 import json,sys,os,subprocess
 id,caught=sys.argv[1],sys.argv[2]
 src='/tmp/seed/%s/seed_out/meta.json'%id
 m=json.load(open(src))
-dst='/verif/seeded/%s'%id
+dst=sys.argv[3]
 locs=open(dst+'/.demo_locations').read().split() if os.path.exists(dst+'/.demo_locations') else []
 if os.path.exists(dst+'/.demo_locations'): os.remove(dst+'/.demo_locations')
 head=subprocess.check_output(['git','-C','/repo','rev-parse','--short','HEAD'],text=True).strip()
